@@ -908,10 +908,21 @@ pub fn run_grammar(g: &AG, name: &str, wd: &Workdir, rep: &mut Rep, prop: &str, 
         }
     }
     // longer random sentences and mutations of them (many when the alphabet is too large for long exhaustive strings)
-    for _ in 0..(if g.terms.len() > 4 { 40 } else { 6 }) {
-        if let Some(mut w) = random_sentence(g, rng, l + 6) {
-            if w.len() > 14 {
+    let big = g.rules.len() >= 10;
+    if big {
+        rep.count("big_family_grammars_in_scope", 1);
+        for side in &p.lr {
+            rep.max("max_lr_states", side.dump.table.states.len() as u64);
+        }
+    }
+    for _ in 0..(if big { 60 } else if g.terms.len() > 4 { 40 } else { 6 }) {
+        let budget = if big { rng.range(8, 60) } else { l + 6 };
+        if let Some(mut w) = random_sentence(g, rng, budget) {
+            if w.len() > (if big { 90 } else { 14 }) {
                 continue;
+            }
+            if big {
+                rep.max("max_sentence_tokens", w.len() as u64);
             }
             for variant in 0..3 {
                 if variant > 0 && !w.is_empty() {
@@ -964,7 +975,14 @@ pub fn main(a: &Args) {
     while i < n && rep.elapsed() < a.max_s {
         let big = i % 5 == 4;
         let o = if big { BnfOpts { max_nt: 5, max_t: 4, max_alts: 3, max_len: 4, ..opts } } else { opts };
-        let g = if i % 5 == 3 { gen_ctx(&mut rng) } else { gen_bnf(&mut rng, &o) };
+        let g = if i % 5 == 3 {
+            gen_ctx(&mut rng)
+        } else if i % 20 == 7 && prop != "C03" {
+            rep.count("big_family_grammars_generated", 1);
+            gen_big(&mut rng)
+        } else {
+            gen_bnf(&mut rng, &o)
+        };
         i += 1;
         if (prop == "C03" && i % 4 == 1 || prop == "C13" && i % 8 == 1) && g.reduced() {
             let mut lg = g.clone();
